@@ -221,12 +221,41 @@ def run(ctx):
                 if x[0] == 'var':
                     strat_l = x[1]
         good = info_l in assigned_true and strat_l in assigned_true and assigned_true.get(info_l) == la and pa is not None and not isinstance(pa, set) and assigned_true.get(strat_l) == pa
+        # functional form: both edges build the pair `(profile, its evaluation)` — `if better { (pruned, pruned_info) } else { (original, info) }`
+        tuple_form = False
+        pairs = {True: [], False: []}
+        for bi, si, st in m.assigns():
+            rv = st['rv']
+            if rv['r'] == 'agg' and rv['kind'].get('k') == 'tuple' and len(rv['ops']) == 2:
+                for cc in m.conds(bi):
+                    if cc['switch'] == s and cc.get('truth') in (True, False):
+                        e_ = m.rvalue_expr(rv, bi)
+                        pairs[cc['truth']].append((norm(e_[2][0]), norm(e_[2][1])))
+        if len(pairs[True]) == 1 and len(pairs[False]) == 1:
+            def obj_eq(x, y):
+                # the profile expression y (from eval_of) and the tuple's first component x denote the same object
+                return x == y or (y is not None and not isinstance(y, set) and (x == y or facts.show(x) == facts.show(y)))
+            (t0, t1), (f0, f1) = pairs[True][0], pairs[False][0]
+            tuple_form = True
+            good = t1 == la and obj_eq(t0, pa) and f1 == lb and obj_eq(f0, eval_of(lb) if not isinstance(eval_of(lb), set) else None)
+            assigned_false = {}
+            # the output must read the two components of that pair
+            pair_local = None
+            for l_, ds_ in m.defs.items():
+                if len(ds_) == 2 and all(d[0] == 'assign' and d[3]['r'] == 'agg' for d in ds_):
+                    pair_local = l_
         ctx.verdict(bool(good) and not assigned_false, rule, rule + ':pair-replaced-together', 'on the true edge the strategies become the truncated clone and the info becomes *its* evaluation; on the false edge nothing changes',
                     m.where(s), 'true edge assigns %s; false edge assigns %s' % ({m.local_name(k): facts.show(v) for k, v in assigned_true.items()}, {m.local_name(k): facts.show(v) for k, v in assigned_false.items()}),
                     breaks='the printed utilities / regrets belong to another profile than the printed strategies')
         # the output uses exactly these two locals
         outs = list(q.struct_sites(m, 'Output'))
         for bi, st, fields in outs:
+            if tuple_form and pair_local is not None:
+                pv = ('var', pair_local, m.local_name(pair_local))
+                uses_info = all(q.find_sub(e, lambda x: x[0] == 'field' and x[2] == '1' and norm(x[1]) == pv) is not None for k, e in fields.items() if not k.endswith('_strategy'))
+                uses_strat = all(q.find_sub(e, lambda x: x[0] == 'field' and x[2] == '0' and norm(x[1]) == pv) is not None for k, e in fields.items() if k.endswith('_strategy'))
+                ctx.verdict(uses_info and uses_strat, rule, rule + ':output-uses-the-pair', 'every numeric output field reads the selected info and every strategy field the selected strategies', m.where(bi), 'info: %s strategies: %s (pair form)' % (uses_info, uses_strat))
+                continue
             uses_info = all(q.find_sub(e, lambda x: x == ('var', info_l, m.local_name(info_l))) is not None for k, e in fields.items() if not k.endswith('_strategy'))
             uses_strat = all(q.find_sub(e, lambda x: x == ('var', strat_l, m.local_name(strat_l))) is not None for k, e in fields.items() if k.endswith('_strategy'))
             ctx.verdict(uses_info and uses_strat, rule, rule + ':output-uses-the-pair', 'every numeric output field reads the selected info and every strategy field the selected strategies', m.where(bi), 'info: %s strategies: %s' % (uses_info, uses_strat))
